@@ -219,6 +219,18 @@ func c10Nontrivial(r *Recorder, rp *Replay) {
 	if len(flags) >= 2 || multiline {
 		r.Nontrivial(Hash(v))
 	}
+	var sample []map[string]interface{}
+	for _, root := range v.Model.Roots {
+		root.Walk(func(m *model.Msg) {
+			for _, a := range m.Attrs {
+				if len(sample) < 6 && (a.Required || a.Computed || a.Sensitive || len(a.Validators)+len(a.PlanModifiers) > 0) {
+					sample = append(sample, map[string]interface{}{"field": a.TypeKey, "attribute": a.Name, "required": a.Required, "computed": a.Computed,
+						"sensitive": a.Sensitive, "validators": a.Validators, "plan_modifiers": a.PlanModifiers, "description": a.Description})
+				}
+			}
+		})
+	}
+	r.Sample(map[string]interface{}{"types": v.Cfg.Types, "use_state_for_unknown_by_default": v.Cfg.UseStateForUnknown, "injected_fields": v.Cfg.InjectedFields, "attributes": sample})
 }
 
 func init() {
@@ -227,6 +239,7 @@ func init() {
 	simpleInner("C04", 300, nil)
 	simpleInner("C10", 1, func(o *gen.Opts, k *gen.KOpts) { o.Comments = true; k.Rich = true }, c10Nontrivial)
 	simpleInner("C05", 300, nil)
+	simpleInner("C06", 400, nil)
 	simpleInner("C07", 300, func(o *gen.Opts, k *gen.KOpts) { o.OneofHeavy = true })
 	simpleInner("C08", 300, nil)
 	simpleInner("C09", 200, nil)
